@@ -35,6 +35,10 @@ Fact fact_bow_chain :
 Proof. eexists. vm_compute. reflexivity. Qed.
 Fact fact_gate_mask : OF.oov_gate_mask = N.lor CF.NOOOVBOW CF.NOOOVBOW2.
 Proof. vm_compute. reflexivity. Qed.
+Fact fact_bow_chain_is_spec : bow_chain = spec_chain.
+Proof. vm_compute. reflexivity. Qed.
+Fact fact_gate_is_spec : OF.oov_gate_mask = spec_gate.
+Proof. vm_compute. reflexivity. Qed.
 (* every class of CategoryType except the composite ALL is a single bit not shared with an earlier class *)
 Fact fact_single_bit_classes :
   simple_from [] flag_values = filter (fun f => negb (f =? CF.ALL)) flag_values.
@@ -188,3 +192,14 @@ Theorem C13_bow_next_forbidden :
     bow_loop bow_chain true prev (c :: d :: t) = false :: false :: bow_loop bow_chain true d t.
 Proof. exact (bow_next_forbidden CF.NOOOVBOW2 CF.NOOOVBOW fact_bow_chain). Qed.
 Print Assumptions C13_bow_next_forbidden.
+
+(* the chain deciding permissible word starts is the one of the statement: forbidden by a preceding NOOOVBOW2 character,
+   NOOOVBOW2 (this and next), NOOOVBOW (this), Latin/Greek/Cyrillic letters only at a class change, everything else free *)
+Theorem C13_can_bow_eq_spec : forall cs, can_bow cs = can_bow_spec cs.
+Proof. exact (can_bow_eq_spec_generic fact_bow_chain_is_spec). Qed.
+Print Assumptions C13_can_bow_eq_spec.
+
+(* the lattice loop skips the providers exactly at NOOOVBOW / NOOOVBOW2 characters and falls back to the last provider *)
+Theorem C13_build_lattice_eq_spec : forall c ps dict, build_lattice c ps dict = build_lattice_spec c ps dict.
+Proof. exact (build_lattice_eq_spec_generic fact_gate_is_spec fact_fallback_is_last). Qed.
+Print Assumptions C13_build_lattice_eq_spec.
